@@ -550,10 +550,11 @@ impl Recognizer for DurationRecognizer {
                     }
                     ow => Some(Err(ReadError::UnexpectedField(Text::new(ow)))),
                 },
-                ReadEvent::EndRecord => Some(Ok(Duration::new(
-                    self.secs.unwrap_or_default(),
-                    self.nanos.unwrap_or_default(),
-                ))),
+                ReadEvent::EndRecord => Some(
+                    Duration::from_secs(self.secs.unwrap_or_default())
+                        .checked_add(Duration::from_nanos(self.nanos.unwrap_or_default().into()))
+                        .ok_or(ReadError::NumberOutOfRange),
+                ),
                 ow => Some(Err(ow.kind_error(ExpectedEvent::Or(vec![
                     ExpectedEvent::ValueEvent(ValueKind::Text),
                     ExpectedEvent::EndOfRecord,
